@@ -183,9 +183,8 @@ FullSync<'a, ItemType, OgreAllocatorType, BUFFER_SIZE, MAX_STREAMS> {
 
     #[inline(always)]
     fn send_derived(&self, ogre_arc_item: &OgreArc<ItemType, OgreAllocatorType>) -> bool {
-        let running_streams_count = self.streams_manager.running_streams_count();
+        let (used_streams, running_streams_count) = self.streams_manager.used_streams_snapshot();
         unsafe { ogre_arc_item.increment_references(running_streams_count) };
-        let used_streams = self.streams_manager.used_streams();
         for i in 0..running_streams_count {
             let stream_id = *unsafe { used_streams.get_unchecked(i as usize) };
             if stream_id != u32::MAX {
